@@ -22,6 +22,7 @@ import pyarrow.parquet as pq
 import tlz as toolz
 from dask.base import normalize_token, tokenize
 from dask.core import flatten
+from dask.dataframe.io.parquet.arrow import _filters_to_expression
 from dask.dataframe.io.parquet.core import (
     ParquetFunctionWrapper,
     ToParquetFunctionWrapper,
@@ -994,7 +995,7 @@ class ReadParquetPyarrowFS(ReadParquet):
             else:
                 ds = self._dataset_info["dataset"]._dataset
             return np.array(
-                list(ds.get_fragments(filter=pq.filters_to_expression(self.filters)))
+                list(ds.get_fragments(filter=_filters_to_expression(self.filters)))
             )
         return np.array(self._dataset_info["fragments"])
 
@@ -1046,7 +1047,8 @@ class ReadParquetPyarrowFS(ReadParquet):
         else:
             fragment = fragment_wrapper
         if isinstance(filters, list):
-            filters = pq.filters_to_expression(filters)
+            # null-aware like the fsspec reader: ``!=`` and ``not in`` keep nulls
+            filters = _filters_to_expression(filters)
         return fragment.to_table(
             schema=schema,
             columns=columns,
